@@ -53,7 +53,7 @@ NewSock == /\ IsEvent("op") /\ Ev.op \in {"udp", "tcp"} /\ expect = NoExp
            /\ socks' = (Ev.s :> [typ |-> Ev.op, v |-> Ev.v, st |-> "init", laddr |-> AnyA, lport |-> 0, raddr |-> AnyA, rport |-> 0,
                                  nets |-> {Ev.v}, rcvclosed |-> FALSE, v6only |-> FALSE,
                                  holds |-> FALSE, haddr |-> AnyA, hport |-> 0, hnets |-> {},
-                                 tcpst |-> "", syn |-> <<-1, -1>>]) @@ socks
+                                 tcpst |-> "", syn |-> <<-1, -1>>, peers |-> {}]) @@ socks
            /\ q' = (Ev.s :> <<>>) @@ q
            /\ UNCHANGED <<addrs, promisc, pemit, expect>>
 
@@ -152,8 +152,11 @@ Shutdown == /\ IsEvent("op") /\ Ev.op = "shutdown" /\ expect = NoExp
                ELSE UNCHANGED <<socks, q>>
             /\ UNCHANGED <<addrs, promisc, pemit, expect>>
 
+\* (an established TCP connection that the application closes lingers in the demultiplexer until its closing handshake is
+\* over: state "linger"; it is not a candidate of Target any more, but segments of its 4-tuple may still reach it)
 Close == /\ IsEvent("op") /\ Ev.op = "close" /\ expect = NoExp
-         /\ socks' = [socks EXCEPT ![Ev.s].st = "closed", ![Ev.s].rcvclosed = TRUE, ![Ev.s].holds = FALSE]
+         /\ socks' = [socks EXCEPT ![Ev.s].st = IF socks[Ev.s].typ = "tcp" /\ socks[Ev.s].tcpst \in {"estab", "disturbed"} THEN "linger" ELSE "closed",
+                                    ![Ev.s].rcvclosed = TRUE, ![Ev.s].holds = FALSE]
          /\ q' = [q EXCEPT ![Ev.s] = <<>>]
          /\ UNCHANGED <<addrs, promisc, pemit, expect>>
 
@@ -178,19 +181,36 @@ InjectTcp == /\ IsEvent("op") /\ Ev.op = "inject" /\ Ev.kind = "tcp" /\ expect =
                     synack == t # NoSock /\ socks[t].tcpst = "synsent" /\ socks[t].syn[1] >= 0
                               /\ HasFlag(Ev, "S") /\ HasFlag(Ev, "A") /\ ~HasFlag(Ev, "R") /\ ~HasFlag(Ev, "F") /\ Ev.pay.n = 0
                               /\ <<Ev.ackhi, Ev.acklo>> = Add32(socks[t].syn[1], socks[t].syn[2], 1)
+                    \* the first SYN of a peer that reaches a listener is answered with a SYN-ACK (later segments of that peer
+                    \* belong to the half-open connection the listener created, which is not modelled here)
+                    lsyn == t # NoSock /\ socks[t].st = "listen" /\ Ev.flags = "S" /\ Ev.pay.n = 0 /\ <<Ev.src, Ev.sport>> \notin socks[t].peers
+                    ling == \/ \E x \in Sids : (socks[x].st = "linger" /\ socks[x].laddr = Ev.dst /\ socks[x].lport = Ev.dport
+                                                  /\ socks[x].raddr = Ev.src /\ socks[x].rport = Ev.sport)
+                            \* ... and so may the half-open connections a listener created for the peers whose SYN it answered
+                            \/ \E x \in Sids : (socks[x].typ = "tcp" /\ <<Ev.src, Ev.sport>> \in socks[x].peers /\ socks[x].lport = Ev.dport
+                                                  /\ (socks[x].laddr = Ev.dst \/ socks[x].laddr = AnyA) /\ socks[x].st # "listen")
                 IN
-                IF t = NoSock /\ Accepts(Fld(Ev, "nic", 1), Ev.dst) /\ ~HasFlag(Ev, "R")
+                IF ling
+                THEN /\ expect' = [kind |-> "notcp", src |-> Ev.dst, dst |-> Ev.src, sport |-> Ev.dport, dport |-> Ev.sport, tosock |-> TRUE]
+                     /\ UNCHANGED socks
+                ELSE IF t = NoSock /\ Accepts(Fld(Ev, "nic", 1), Ev.dst) /\ ~HasFlag(Ev, "R")
                 THEN /\ expect' = [kind |-> "rst", src |-> Ev.dst, dst |-> Ev.src, sport |-> Ev.dport, dport |-> Ev.sport,
                                 seq |-> IF HasFlag(Ev, "A") THEN <<Ev.ackhi, Ev.acklo>> ELSE <<0, 0>>,
                                 ack |-> Add32(Ev.seqhi, Ev.seqlo, SegLen(Ev))]
                      /\ UNCHANGED socks
+                ELSE IF lsyn
+                THEN /\ expect' = [kind |-> "synack", src |-> Ev.dst, dst |-> Ev.src, sport |-> Ev.dport, dport |-> Ev.sport,
+                                    ack |-> Add32(Ev.seqhi, Ev.seqlo, 1)]
+                     /\ socks' = [socks EXCEPT ![t].peers = @ \cup {<<Ev.src, Ev.sport>>}]
                 ELSE IF synack
                 THEN /\ expect' = [kind |-> "hsack", src |-> Ev.dst, dst |-> Ev.src, sport |-> Ev.dport, dport |-> Ev.sport,
                                     seq |-> <<Ev.ackhi, Ev.acklo>>, ack |-> Add32(Ev.seqhi, Ev.seqlo, 1)]
                      /\ socks' = [socks EXCEPT ![t].tcpst = "estab"]
                 ELSE /\ expect' = [kind |-> "notcp", src |-> Ev.dst, dst |-> Ev.src, sport |-> Ev.dport, dport |-> Ev.sport,
                                 tosock |-> (t # NoSock)]
-                     /\ UNCHANGED socks
+                     \* any other segment that reaches a connecting socket may change its handshake state (a plain SYN is a
+                     \* simultaneous open, ...): no expectation about a later SYN-ACK any more
+                     /\ socks' = IF t # NoSock /\ socks[t].tcpst = "synsent" THEN [socks EXCEPT ![t].tcpst = "disturbed"] ELSE socks
              /\ UNCHANGED <<addrs, promisc, q, pemit>>
 
 \* exactly one reset that acknowledges the segment (sequence 0 if it carried no ACK)
@@ -210,9 +230,12 @@ EmitTcpOther == /\ IsEvent("emit") /\ Ev.kind = "tcp" /\ expect.kind \in {"notcp
                 /\ ~(HasFlag(Ev, "S") /\ ~HasFlag(Ev, "A") /\ ~HasFlag(Ev, "R") /\ SynOf(Ev) # {})
                 /\ (expect.kind = "notcp" /\ SameTuple(Ev)) => expect.tosock
                 /\ UNCHANGED <<addrs, promisc, socks, q, pemit, expect>>
-Settle == /\ IsEvent("op") /\ Ev.op \in {"settle", "sleep"} /\ expect.kind \notin {"rst", "hsack"}
-          /\ expect' = NoExp /\ UNCHANGED <<addrs, promisc, socks, q, pemit>>
-EndExpect == /\ expect.kind = "notcp" /\ l <= NT /\ Trace[l].ev = "op" /\ Trace[l].op \notin {"settle", "sleep"}
+\* (the reset of the no-socket path is emitted synchronously inside the injection, so it must be there at the next settle;
+\* the final ACK of an active open and the SYN-ACK of a listener come from protocol goroutines: they may be late, so such an
+\* expectation survives a settle and is simply dropped at the next operation - what it still forbids is a RESET instead)
+Settle == /\ IsEvent("op") /\ Ev.op \in {"settle", "sleep"} /\ expect.kind # "rst"
+          /\ expect' = (IF expect.kind \in {"hsack", "synack"} THEN expect ELSE NoExp) /\ UNCHANGED <<addrs, promisc, socks, q, pemit>>
+EndExpect == /\ expect.kind \in {"notcp", "hsack", "synack"} /\ l <= NT /\ Trace[l].ev = "op" /\ Trace[l].op \notin {"settle", "sleep"}
              /\ expect' = NoExp /\ UNCHANGED <<l, addrs, promisc, socks, q, pemit>>
 EmitOther == /\ IsEvent("emit") /\ Ev.kind \notin {"udp", "tcp"}
              /\ UNCHANGED <<addrs, promisc, socks, q, pemit, expect>>
@@ -236,6 +259,12 @@ EmitSyn == /\ IsEvent("emit") /\ Ev.kind = "tcp" /\ HasFlag(Ev, "S") /\ ~HasFlag
            /\ UNCHANGED <<addrs, promisc, q, pemit, expect>>
 \* the SYN-ACK that acknowledges exactly that SYN reaches the connecting socket (the most specific match): the handshake
 \* completes, i.e. the next frame on that 4-tuple is the final ACK (not a reset: a socket matched)
+EmitSynAck == /\ IsEvent("emit") /\ Ev.kind = "tcp" /\ expect.kind = "synack"
+              /\ HasFlag(Ev, "S") /\ HasFlag(Ev, "A") /\ ~HasFlag(Ev, "R")
+              /\ Ev.src = expect.src /\ Ev.dst = expect.dst /\ Ev.sport = expect.sport /\ Ev.dport = expect.dport
+              /\ <<Ev.ackhi, Ev.acklo>> = expect.ack
+              /\ expect' = [kind |-> "notcp", src |-> expect.src, dst |-> expect.dst, sport |-> expect.sport, dport |-> expect.dport, tosock |-> TRUE]
+              /\ UNCHANGED <<addrs, promisc, socks, q, pemit>>
 EmitHsAck == /\ IsEvent("emit") /\ Ev.kind = "tcp" /\ expect.kind = "hsack"
              /\ HasFlag(Ev, "A") /\ ~HasFlag(Ev, "R") /\ ~HasFlag(Ev, "S")
              /\ Ev.src = expect.src /\ Ev.dst = expect.dst /\ Ev.sport = expect.sport /\ Ev.dport = expect.dport
@@ -252,6 +281,6 @@ Avail == /\ IsEvent("op") /\ Ev.op = "avail" /\ expect = NoExp
 
 TNext == Reset \/ NewSock \/ Bind \/ Connect \/ Listen \/ SetOpt \/ Write \/ EmitUdp \/ InjectUdp \/ Read \/ ReadAll
          \/ Shutdown \/ Close \/ AddrOps \/ InjectTcp \/ EmitRst \/ EmitTcpOther \/ Settle \/ EndExpect \/ EmitOther
-         \/ TcpConnect \/ TcpAccept \/ EmitSyn \/ EmitHsAck \/ Avail
+         \/ TcpConnect \/ TcpAccept \/ EmitSyn \/ EmitHsAck \/ EmitSynAck \/ Avail
 TSpec == TInit /\ [][TNext]_tvars
 ====
